@@ -236,7 +236,15 @@ def run_property(pid: str, fn, tier: str, seed: int, only_key: tuple | None = No
     cmd = f"./vcheck {pid} --tier {tier}"
     floor_error = None
     try:
+        try:
+            from . import grammar as _grammar
+            _grammar.PENDING_LIMITS.clear()
+        except Exception:  # noqa: BLE001
+            _grammar = None
         fn(rep)
+        if _grammar is not None:
+            for m_ in _grammar.PENDING_LIMITS:
+                rep.limit(m_)
         lims = getattr(rep, "limits", [])
         if lims:
             known_ = load_known_findings()
